@@ -22,7 +22,11 @@ class TopoProbe(Process):
 
     def next_update(self, timestep, states):
         self.parameters['log'].append(copy.deepcopy(states))
-        return copy.deepcopy(self.parameters['update'])
+        # the same object every time (a process may well cache its update):
+        # it must come back unmodified
+        if not hasattr(self, 'cached'):
+            self.cached = copy.deepcopy(self.parameters['update'])
+        return self.cached
 
 
 class Extra(Process):
@@ -63,7 +67,7 @@ class Built:
     pass
 
 
-def build(case, given=None, extra=True, defaults_distinct=False):
+def build(case, given=None, extra=True, defaults_distinct=False, wrap=False):
     """Build processes/topology/initial state for a case.
 
     given: set of node tuples that receive an explicit initial value (None: all)
@@ -115,12 +119,15 @@ def build(case, given=None, extra=True, defaults_distinct=False):
     for i, x in enumerate(variables):
         amt = 2 ** i
         b.amount[(x['port'], tuple(x['v']))] = amt
+        # wrap: the update names its updater itself (the form C08 describes)
+        val = {'_value': amt, '_updater': 'accumulate'} if wrap else amt
         if x['v']:
-            nested_set(update, [x['port']] + list(x['v']), amt)
+            nested_set(update, [x['port']] + list(x['v']), val)
         else:
-            update[x['port']] = amt
+            update[x['port']] = val
     b.log = []
     probe = TopoProbe({'schema': schema, 'update': update, 'log': b.log})
+    b.probe, b.update = probe, copy.deepcopy(update)
     processes, topology = {}, {}
     nested_set(processes, list(loc) + ['proc'], probe)
     nested_set(topology, list(loc) + ['proc'], topo)
